@@ -123,8 +123,8 @@ def sizer_selection(ctx):
     ps = summarise(ctx, 'QuantTradingSystem.__init__', policy=no_inline)
     for p in normal(ps):
         for fld in ('universe', 'broker', 'broker_portfolio_id', 'data_handler', 'alpha_model', 'long_only', 'submit_orders'):
-            w = heap_writes(p, fld)
-            ctx.require(len(w) == 1 and w[0].value == V(fld), 'C08.wiring', 'QuantTradingSystem.%s is the constructor argument' % fld, w[0].site if w else None, key='C08.wiring|qts-field|%s' % fld)
+            from ..lib import ctor_keeps_argument
+            ctor_keeps_argument(ctx, 'C08.wiring', 'QuantTradingSystem', p, fld, 'QuantTradingSystem.%s is the constructor argument' % fld, 'C08.wiring|qts-field|%s' % fld)
 
 
 def execution(ctx):
@@ -186,9 +186,8 @@ def funding(ctx):
     ps = summarise(ctx, 'BacktestTradingSession.__init__', policy=no_inline)
     for p in normal(ps)[:1]:
         for fld in ('start_dt', 'end_dt', 'universe', 'alpha_model', 'initial_cash', 'portfolio_id', 'long_only', 'fee_model', 'burn_in_dt', 'rebalance'):
-            w = heap_writes(p, fld)
-            ctx.require(len(w) == 1 and w[0].value == V(fld), 'C08.funding', 'BacktestTradingSession.%s is the constructor argument' % fld, w[0].site if w else None,
-                        key='C08.funding|field|%s' % fld)
+            from ..lib import ctor_keeps_argument
+            ctor_keeps_argument(ctx, 'C08.funding', 'BacktestTradingSession', p, fld, 'BacktestTradingSession.%s is the constructor argument' % fld, 'C08.funding|field|%s' % fld)
     ps = summarise(ctx, 'BacktestTradingSession._create_exchange', policy=no_inline)
     ok = len(ps) == 1 and ps[0].value is not None and ps[0].value[0] == 'call' and ps[0].value[1] == ('fn', 'SimulatedExchange')
     ctx.require(ok, 'C08.funding', 'the session trades on the simulated exchange (14:30-21:00)', ctx.fn('BacktestTradingSession._create_exchange').site(), key='C08.funding|exchange')
